@@ -289,9 +289,11 @@ def run(rep, tier, seed, selftest):
     # ---- private items of the SAME NAME in several modules, every file order, executed (spec/SameNames.tla)
     from . import c12_samenames
     sn = c12_samenames.run_part(rep, tier, selftest or tier == "thorough")
+    from . import c12_importpaths
+    ip = c12_importpaths.run_part(rep, tier, selftest or tier == "thorough")
     coverage = {
-        "states": states + sn["states"], "transitions": transitions + sn["generated"],
-        "same_names": sn,
+        "states": states + sn["states"] + ip["states"], "transitions": transitions + sn["generated"] + ip["generated"],
+        "same_names": sn, "import_paths": ip,
         "traces_validated_against_impl": len(cases) + ok_runs + ok_records + sn["cells"],
         "samples": samples,
         "evaluations": len(cases) + count + orders_run + 3 * nhist,
@@ -376,6 +378,9 @@ def replay(path):
     detail = d.get("detail", {})
     print("kind:", d.get("kind"), " key:", d.get("key"))
     part = detail.get("part", "")
+    if part == "import-paths":
+        from . import c12_importpaths
+        return c12_importpaths.replay(detail)
     if part == "same-names":
         from . import c12_samenames
         return c12_samenames.replay(detail)
